@@ -24,10 +24,11 @@ import (
 // ---- C22: two-operation controlled schedules and single faults ----
 
 type opJ struct {
-	Op  string `json:"op"` // addPod removePod addNode removeNode create remove
-	Pod string `json:"pod,omitempty"`
-	N   string `json:"n,omitempty"`
-	W   int    `json:"w,omitempty"`
+	Op   string `json:"op"` // addPod removePod addNode removeNode create remove
+	Pod  string `json:"pod,omitempty"`
+	N    string `json:"n,omitempty"`
+	W    int    `json:"w,omitempty"`
+	Flag string `json:"flag,omitempty"` // addNode: "down" (real node without heartbeat), "bypass", "label"
 }
 
 type rstJ struct {
@@ -47,7 +48,11 @@ type refCase struct {
 	Init     string   `json:"init"` // name of the initial state
 	A        opJ      `json:"a"`
 	B        *opJ     `json:"b,omitempty"`
-	K        int      `json:"k"`         // A is parked before its k-th labelled call
+	K        int      `json:"k"` // A is parked before its k-th labelled call
+	Ops      []opJ    `json:"ops,omitempty"`
+	States   []rstJ   `json:"states,omitempty"`
+	OKs      []bool   `json:"oks,omitempty"`
+	ListOKs  []bool   `json:"list_oks,omitempty"`
 	FaultPC  int      `json:"fault_pc"`  // fault cases: model pc of the failing call (-1 none)
 	LabelsA  []string `json:"labels_a"`  // labels of A's calls before the park
 	Parked   bool     `json:"parked"`    // A reached the park
@@ -85,6 +90,15 @@ func (r *refRig) setup(init string) {
 	case "empty":
 	case "pod":
 		addPod(cl, r.name("p1"))
+	case "downnode", "bypassnode", "labelnode+wl":
+		addPod(cl, r.name("p1"))
+		flag := map[string]string{"downnode": "down", "bypassnode": "bypass", "labelnode+wl": "label"}[init]
+		if !r.run(opJ{Op: "addNode", N: "n1", Pod: "p1", Flag: flag}) {
+			r.t.Fatalf("setup addNode failed")
+		}
+		if init == "labelnode+wl" && !r.run(opJ{Op: "create", N: "n1", W: 9}) {
+			r.t.Fatalf("setup create failed")
+		}
 	case "node", "node+wl":
 		addPod(cl, r.name("p1"))
 		addNode(cl, ckit.NodeSpec{Name: r.name("n1"), Pod: r.name("p1"), CPU: 4, Memory: 8 << 30})
@@ -108,12 +122,26 @@ func (r *refRig) run(o opJ) bool {
 	case "removePod":
 		return cl.C.RemovePod(ctx, r.name(o.Pod)) == nil
 	case "addNode":
-		_, err := cl.C.AddNode(ctx, cl.AddNodeOptions(ckit.NodeSpec{Name: r.name(o.N), Pod: r.name(o.Pod), CPU: 4, Memory: 8 << 30}))
+		ao := cl.AddNodeOptions(ckit.NodeSpec{Name: r.name(o.N), Pod: r.name(o.Pod), CPU: 4, Memory: 8 << 30})
+		switch o.Flag {
+		case "down":
+			ao.Test = false // a real node that never sent a heartbeat: down
+		case "label":
+			ao.Labels = map[string]string{"zone": "a"}
+		}
+		_, err := cl.C.AddNode(ctx, ao)
+		if err == nil && o.Flag == "bypass" {
+			_, err = cl.C.SetNode(ctx, &types.SetNodeOptions{Nodename: r.name(o.N), Bypass: types.TriTrue})
+		}
 		return err == nil
 	case "removeNode":
 		return cl.C.RemoveNode(ctx, r.name(o.N)) == nil
 	case "create":
-		opts := deployOpts("app", "web", r.name("p1"), 1, "AUTO", cpumemReq(0.5, 1<<28, false), []string{r.name(o.N)})
+		pod := o.Pod
+		if pod == "" {
+			pod = "p1"
+		}
+		opts := deployOpts("app", "web", r.name(pod), 1, "AUTO", cpumemReq(0.5, 1<<28, false), []string{r.name(o.N)})
 		msgs, err := deploy(cl, opts)
 		if err != nil || len(msgs) != 1 || msgs[0].Error != nil {
 			return false
@@ -340,6 +368,23 @@ func genRef(t *testing.T, out *hx.Out, budget int) {
 			}
 		}
 	}
+	// every operation alone (no fault) from every initial state, incl. down / bypassed / labelled nodes
+	// and a duplicate AddNode: RefInv must hold after every single operation
+	for _, init := range []string{"downnode", "bypassnode", "labelnode+wl", "node", "node+wl", "pod", "empty"} {
+		for _, a := range []opJ{{Op: "removePod", Pod: "p1"}, {Op: "removeNode", N: "n1"}, {Op: "addNode", N: "n1", Pod: "p1"}, {Op: "addNode", N: "n1", Pod: "p1", Flag: "label"},
+			{Op: "create", N: "n1", W: 1}, {Op: "addPod", Pod: "p1"}} {
+			rig := newRefRig(t, fmt.Sprintf("o%d", fi))
+			fi++
+			rig.setup(init)
+			c := &refCase{ID: fmt.Sprintf("single-%d", fi), Kind: "fault", Init: init, A: a, FaultPC: -1, K: -1, Pre: rig.state()}
+			c.OKA = rig.run(a)
+			c.Impl = rig.state()
+			c.ListOK = rig.listOK()
+			out.Emit(c) // not counted against the budget of the schedules
+			rig.cl.Close()
+		}
+	}
+	genHist(t, out, budget/8+3)
 	for pi, pl := range refPairs() {
 		if n >= budget {
 			break
@@ -365,6 +410,56 @@ func genRef(t *testing.T, out *hx.Out, budget int) {
 	}
 }
 
+// genHist: random sequential histories; the state is snapshotted after EVERY operation.
+func genHist(t *testing.T, out *hx.Out, count int) {
+	r := hx.NewRng(hx.Seed() + 77)
+	for h := 0; h < count; h++ {
+		ops := []opJ{}
+		nextW := 1
+		ws := map[string][]int{}
+		for i, n := 0, r.Range(4, 9); i < n; i++ {
+			nd := hx.Pick(r, "n1", "n2")
+			pod := map[string]string{"n1": "p1", "n2": "p2"}[nd]
+			switch k := r.Intn(12); {
+			case k < 2:
+				ops = append(ops, opJ{Op: "addPod", Pod: hx.Pick(r, "p1", "p2")})
+			case k < 4:
+				ops = append(ops, opJ{Op: "removePod", Pod: hx.Pick(r, "p1", "p2")})
+			case k < 7:
+				ops = append(ops, opJ{Op: "addNode", N: nd, Pod: pod, Flag: hx.Pick(r, "", "", "down", "bypass", "label")})
+			case k < 9:
+				ops = append(ops, opJ{Op: "removeNode", N: nd})
+			case k < 11:
+				ops = append(ops, opJ{Op: "create", N: nd, Pod: pod, W: nextW})
+				ws[nd] = append(ws[nd], nextW)
+				nextW++
+			default:
+				if nextW > 1 {
+					ops = append(ops, opJ{Op: "remove", W: r.Range(1, nextW-1)})
+				}
+			}
+		}
+		runHist(t, out, ops, fmt.Sprintf("hist-%d", h), fmt.Sprintf("h%d", h))
+	}
+}
+
+func runHist(t *testing.T, out *hx.Out, ops []opJ, id, tag string) {
+	rig := newRefRig(t, tag)
+	defer rig.cl.Close()
+	c := &refCase{ID: id, Kind: "hist", Init: "empty", Ops: ops, FaultPC: -1, K: -1, Pre: rig.state()}
+	for _, o := range ops {
+		c.OKs = append(c.OKs, rig.run(o))
+		c.States = append(c.States, rig.state())
+		c.ListOKs = append(c.ListOKs, rig.listOK())
+	}
+	c.Impl = c.Pre
+	if len(c.States) > 0 {
+		c.Impl = c.States[len(c.States)-1]
+	}
+	c.ListOK = true
+	out.Emit(c)
+}
+
 func replayRef(t *testing.T, out *hx.Out, path string) {
 	f, err := os.Open(path)
 	fatalIf(t, err, "open replay")
@@ -374,7 +469,12 @@ func replayRef(t *testing.T, out *hx.Out, path string) {
 	i := 0
 	for sc.Scan() {
 		var c refCase
-		if json.Unmarshal(sc.Bytes(), &c) != nil || (c.Kind != "sched" && c.Kind != "fault") {
+		if json.Unmarshal(sc.Bytes(), &c) != nil || (c.Kind != "sched" && c.Kind != "fault" && c.Kind != "hist") {
+			continue
+		}
+		if c.Kind == "hist" {
+			runHist(t, out, c.Ops, c.ID, fmt.Sprintf("r%d", i))
+			i++
 			continue
 		}
 		rig := newRefRig(t, fmt.Sprintf("r%d", i))
